@@ -1,10 +1,772 @@
-//! C20. See DESIGN.md §4.
-use crate::Args;
-use vcore::json::J;
+//! C20: auxiliary structures (uniform-grid k-NN, bounding spheres).
+//!
+//! Simulated clause (S2): `Epos6::bounding_sphere` feeds the members of an
+//! `ahash::HashSet` to `Welzl` in iteration order, which differs from process
+//! to process. The hash-order seam lets the harness own that order; for every
+//! generated point set *all* m! orders of the m <= 6 extremal indices are run.
+//!
+//! The other clauses (k-NN exactness, Welzl containment/minimality, sphere of
+//! spheres) have no order or schedule in them. They are evaluated on the same
+//! seeded workload against brute force and reported separately as
+//! "exercised, not simulated".
 
-pub fn cmd_c20(_args: &Args) -> i32 {
-    2
+use crate::Args;
+use glam::DVec3;
+use mv_seq::verif as lib;
+use std::cell::RefCell;
+use std::collections::{BTreeMap, BTreeSet};
+use std::time::Instant;
+use vcore::json::J;
+use vcore::rng::{mix, Rng};
+
+thread_local! {
+    /// Permutation (Lehmer index) applied by the seam, and the size of the set it saw.
+    static ORDER: RefCell<(u64, usize, Vec<usize>)> = const { RefCell::new((0, 0, Vec::new())) };
 }
-pub fn replay(_j: &J, _path: &str, _args: &Args) -> i32 {
-    2
+
+fn seam(order: &mut Vec<usize>) {
+    ORDER.with(|o| {
+        let mut o = o.borrow_mut();
+        let m = order.len();
+        o.1 = m;
+        // decode Lehmer index into a permutation of the sorted members
+        let mut idx = o.0;
+        let mut pool: Vec<usize> = order.clone();
+        let mut out = Vec::with_capacity(m);
+        let mut f: u64 = (1..=m as u64).product();
+        for i in 0..m {
+            f /= (m - i) as u64;
+            let k = (idx / f.max(1)) as usize % pool.len();
+            idx %= f.max(1);
+            out.push(pool.remove(k));
+        }
+        o.2 = out.clone();
+        *order = out;
+    });
+}
+
+fn factorial(m: usize) -> u64 {
+    (1..=m as u64).product::<u64>().max(1)
+}
+
+fn set_order(p: u64) {
+    ORDER.with(|o| o.borrow_mut().0 = p);
+}
+fn seen() -> (usize, Vec<usize>) {
+    ORDER.with(|o| {
+        let o = o.borrow();
+        (o.1, o.2.clone())
+    })
+}
+
+// ---------------------------------------------------------------------------
+// Workloads
+// ---------------------------------------------------------------------------
+
+pub const POINT_FAMILIES: &[&str] = &[
+    "uniform_aniso",
+    "planar",
+    "lattice",
+    "cospherical",
+    "tight_cluster",
+    "repeated_extremes",
+    "few",
+    "collinear_axis",
+];
+
+fn gen_points(rng: &mut Rng, max_n: usize) -> (String, Vec<DVec3>) {
+    let fam = *rng.pick(POINT_FAMILIES);
+    let n = match rng.below(4) {
+        0 => 2 + rng.below(5) as usize,
+        1 => 2 + rng.below(20) as usize,
+        _ => 2 + rng.below(max_n as u64 - 1) as usize,
+    };
+    let mut pts: Vec<DVec3> = vec![];
+    match fam {
+        "uniform_aniso" => {
+            let s = DVec3::new(10f64.powf(rng.sym() * 4.0), 10f64.powf(rng.sym() * 4.0), 10f64.powf(rng.sym() * 4.0));
+            let o = DVec3::new(rng.sym() * 100.0, rng.sym() * 100.0, rng.sym() * 100.0);
+            for _ in 0..n {
+                pts.push(o + s * DVec3::new(rng.f64(), rng.f64(), rng.f64()));
+            }
+        }
+        "planar" => {
+            let z = if rng.chance(0.5) { 0.0 } else { rng.sym() * 10.0 };
+            for _ in 0..n {
+                pts.push(DVec3::new(rng.f64(), rng.f64(), z));
+            }
+        }
+        "lattice" => {
+            let m = ((n as f64).cbrt().ceil() as usize).max(2);
+            for i in 0..m {
+                for j in 0..m {
+                    for k in 0..m {
+                        if pts.len() < n {
+                            // generic skew so that no three lattice points are collinear along an axis pair
+                            pts.push(DVec3::new(
+                                i as f64 + 0.01 * (j * j) as f64,
+                                j as f64 + 0.013 * (k * k) as f64,
+                                k as f64 + 0.017 * (i * i) as f64,
+                            ));
+                        }
+                    }
+                }
+            }
+        }
+        "cospherical" => {
+            let c = DVec3::new(rng.sym(), rng.sym(), rng.sym());
+            let r = 0.1 + rng.f64();
+            let eps = if rng.chance(0.5) { 0.0 } else { 1e-12 };
+            for _ in 0..n {
+                let mut d;
+                loop {
+                    d = DVec3::new(rng.sym(), rng.sym(), rng.sym());
+                    if d.length() > 1e-3 {
+                        break;
+                    }
+                }
+                pts.push(c + d.normalize() * r * (1.0 + eps * rng.sym()));
+            }
+        }
+        "tight_cluster" => {
+            let c = DVec3::new(rng.f64(), rng.f64(), rng.f64());
+            let s = 10f64.powf(-9.0 + 3.0 * rng.f64());
+            for _ in 0..n {
+                pts.push(c + s * DVec3::new(rng.sym(), rng.sym(), rng.sym()));
+            }
+            if rng.chance(0.5) {
+                pts.push(DVec3::new(rng.f64(), rng.f64(), rng.f64()));
+            }
+        }
+        "repeated_extremes" => {
+            // several points share the extreme coordinate: the strict `<` keeps
+            // the first, and the extremal set has fewer than 6 members
+            for _ in 0..n {
+                let q = |rng: &mut Rng| (rng.below(4) as f64) / 3.0;
+                pts.push(DVec3::new(q(rng), q(rng), q(rng)) + 1e-3 * DVec3::new(rng.f64(), 0.0, 0.0));
+            }
+        }
+        "few" => {
+            for _ in 0..(2 + rng.below(4)) {
+                pts.push(DVec3::new(rng.sym(), rng.sym(), rng.sym()));
+            }
+        }
+        _ => {
+            // nearly collinear along one axis with small transverse noise
+            let ax = rng.below(3) as usize;
+            let noise = 10f64.powf(-1.0 - 6.0 * rng.f64());
+            for _ in 0..n {
+                let mut p = DVec3::new(rng.sym(), rng.sym(), rng.sym()) * noise;
+                p[ax] = rng.sym() * 10.0;
+                pts.push(p);
+            }
+        }
+    }
+    // distinct points only
+    let mut seen = BTreeSet::new();
+    pts.retain(|p| seen.insert([p.x.to_bits(), p.y.to_bits(), p.z.to_bits()]));
+    if pts.len() < 2 {
+        pts.push(DVec3::new(1.0, 2.0, 3.0));
+        pts.push(DVec3::new(-1.0, 0.5, 0.25));
+    }
+    (fam.to_string(), pts)
+}
+
+fn pts_json(pts: &[DVec3]) -> J {
+    J::obj()
+        .set(
+            "bits",
+            J::arr(pts.iter().map(|p| J::arr([p.x, p.y, p.z].iter().map(|x| J::s(&format!("{:016x}", x.to_bits())))))),
+        )
+        .set("values", J::arr(pts.iter().map(|p| J::arr([p.x, p.y, p.z].iter().map(|x| J::Num(*x))))))
+}
+
+fn pts_from(j: &J) -> Result<Vec<DVec3>, String> {
+    j.get("bits")
+        .and_then(|b| b.as_arr())
+        .ok_or("bits missing")?
+        .iter()
+        .map(|p| {
+            let a = p.as_arr().ok_or("bad point")?;
+            let f = |i: usize| -> Result<f64, String> {
+                Ok(f64::from_bits(
+                    u64::from_str_radix(a[i].as_str().ok_or("bad hex")?, 16).map_err(|e| e.to_string())?,
+                ))
+            };
+            Ok(DVec3::new(f(0)?, f(1)?, f(2)?))
+        })
+        .collect()
+}
+
+// ---------------------------------------------------------------------------
+// Oracles
+// ---------------------------------------------------------------------------
+
+/// Tolerance on the radius (relative): the library's own `contains` uses
+/// 1 + 1e-10 on r^2; the `extend` pass adds a few roundings per point.
+const CONTAIN_TOL: f64 = 1e-9;
+
+fn contains_all(c: DVec3, r: f64, pts: &[DVec3]) -> Result<(), String> {
+    if !(r.is_finite() && c.is_finite()) {
+        return Err(format!("sphere not finite: center={:?} radius={}", c, r));
+    }
+    let scale = pts.iter().fold(0.0f64, |m, p| m.max(p.abs().max_element())).max(r);
+    for (i, p) in pts.iter().enumerate() {
+        let d = p.distance(c);
+        if d > r * (1.0 + CONTAIN_TOL) + scale * 1e-13 {
+            return Err(format!("point {} at distance {:e} outside radius {:e} (excess {:e})", i, d, r, d / r - 1.0));
+        }
+    }
+    Ok(())
+}
+
+/// Epos6 on points under hash order `perm`. Returns Err(description) on violation.
+fn epos6_under(pts: &[DVec3], perm: u64) -> (usize, Result<(), String>) {
+    set_order(perm);
+    let r = std::panic::catch_unwind(|| lib::epos6_points(pts));
+    let (m, _) = seen();
+    match r {
+        Err(_) => (m, Err("panicked".into())),
+        Ok((c, rad)) => (m, contains_all(c, rad, pts)),
+    }
+}
+
+fn circumsphere(b: &[DVec3]) -> Option<(DVec3, f64)> {
+    // smallest sphere through 2, 3 or 4 points (own implementation)
+    match b.len() {
+        2 => Some(((b[0] + b[1]) * 0.5, b[0].distance(b[1]) * 0.5)),
+        3 => {
+            let a = b[1] - b[0];
+            let c = b[2] - b[0];
+            let n = a.cross(c);
+            let d = 2.0 * n.length_squared();
+            if d.abs() < 1e-300 {
+                return None;
+            }
+            let o = (n.cross(a) * c.length_squared() + c.cross(n) * a.length_squared()) / d;
+            Some((b[0] + o, o.length()))
+        }
+        4 => {
+            let a = b[1] - b[0];
+            let c = b[2] - b[0];
+            let e = b[3] - b[0];
+            let det = a.dot(c.cross(e));
+            if det.abs() < 1e-300 {
+                return None;
+            }
+            let o = (c.cross(e) * a.length_squared() + e.cross(a) * c.length_squared() + a.cross(c) * e.length_squared())
+                / (2.0 * det);
+            Some((b[0] + o, o.length()))
+        }
+        _ => None,
+    }
+}
+
+/// Brute-force minimal enclosing sphere radius (n small).
+fn brute_min_radius(pts: &[DVec3]) -> Option<f64> {
+    let n = pts.len();
+    let mut best: Option<f64> = None;
+    let mut consider = |s: Option<(DVec3, f64)>| {
+        if let Some((c, r)) = s {
+            if r.is_finite() && pts.iter().all(|p| p.distance(c) <= r * (1.0 + 1e-9)) && best.map_or(true, |b| r < b) {
+                best = Some(r);
+            }
+        }
+    };
+    for i in 0..n {
+        for j in i + 1..n {
+            consider(circumsphere(&[pts[i], pts[j]]));
+            for k in j + 1..n {
+                consider(circumsphere(&[pts[i], pts[j], pts[k]]));
+                for l in k + 1..n {
+                    consider(circumsphere(&[pts[i], pts[j], pts[k], pts[l]]));
+                }
+            }
+        }
+    }
+    best
+}
+
+fn check_welzl(pts: &[DVec3], minimal: bool) -> Result<(), String> {
+    let r = std::panic::catch_unwind(|| lib::welzl(pts));
+    let (c, rad) = match r {
+        Ok(x) => x,
+        Err(_) => return Err("welzl panicked".into()),
+    };
+    contains_all(c, rad, pts).map_err(|e| format!("welzl: {}", e))?;
+    if minimal && pts.len() <= 9 {
+        if let Some(b) = brute_min_radius(pts) {
+            if rad > b * (1.0 + 1e-6) {
+                return Err(format!("welzl: radius {:e} exceeds minimal {:e}", rad, b));
+            }
+        }
+    }
+    Ok(())
+}
+
+fn check_spheres(sph: &[(DVec3, f64)]) -> Result<(), String> {
+    let r = std::panic::catch_unwind(|| lib::epos6_spheres(sph));
+    let (c, rad) = match r {
+        Ok(x) => x,
+        Err(_) => return Err("epos6_spheres panicked".into()),
+    };
+    if !(rad.is_finite() && c.is_finite()) {
+        return Err(format!("sphere of spheres not finite: center={:?} radius={}", c, rad));
+    }
+    for (i, (sc, sr)) in sph.iter().enumerate() {
+        let d = sc.distance(c) + sr;
+        if d > rad * (1.0 + CONTAIN_TOL) + 1e-13 {
+            return Err(format!("sphere {} reaches {:e} > radius {:e}", i, d, rad));
+        }
+    }
+    Ok(())
+}
+
+struct KnnCase {
+    anchor: DVec3,
+    width: DVec3,
+    max_cell_width: f64,
+    pts: Vec<DVec3>,
+    k: usize,
+}
+
+fn gen_knn(rng: &mut Rng, cubic_only: bool, max_n: usize) -> KnnCase {
+    let anchor = if rng.chance(0.5) {
+        DVec3::ZERO
+    } else {
+        DVec3::new(rng.sym() * 10.0, rng.sym() * 10.0, rng.sym() * 10.0)
+    };
+    let w = 0.5 + 3.0 * rng.f64();
+    let width = if cubic_only || rng.chance(0.3) {
+        DVec3::splat(w)
+    } else {
+        DVec3::new(w, w * (0.2 + 3.0 * rng.f64()), w * (0.2 + 3.0 * rng.f64()))
+    };
+    let n = 2 + rng.below(max_n as u64 - 1) as usize;
+    let mut pts = vec![];
+    let clustered = rng.chance(0.3);
+    let c = DVec3::new(rng.f64(), rng.f64(), rng.f64());
+    for _ in 0..n {
+        let u = if clustered && rng.chance(0.7) {
+            (c + 0.05 * DVec3::new(rng.sym(), rng.sym(), rng.sym())).clamp(DVec3::ZERO, DVec3::splat(0.999999))
+        } else {
+            DVec3::new(rng.f64(), rng.f64(), rng.f64())
+        };
+        let mut p = anchor + u * width;
+        // stay inside the half-open box
+        for a in 0..3 {
+            if p[a] >= anchor[a] + width[a] {
+                p[a] = anchor[a];
+            }
+            if p[a] < anchor[a] {
+                p[a] = anchor[a];
+            }
+        }
+        pts.push(p);
+    }
+    let frac = *rng.pick(&[1.0, 0.6, 0.34, 0.26, 0.2, 0.11]);
+    // keep the grid small: the search visits O(r^3) cells per ring, so a grid
+    // with hundreds of cells along an axis costs minutes without testing more
+    let base = if width.max_element() / width.min_element() > 3.0 || rng.chance(0.5) {
+        width.max_element()
+    } else {
+        width.min_element()
+    };
+    let max_cell_width = base * frac * (0.9 + 0.2 * rng.f64());
+    let k = match rng.below(4) {
+        0 => 0,
+        1 => n - 1,
+        _ => rng.below(n as u64) as usize,
+    };
+    KnnCase {
+        anchor,
+        width,
+        max_cell_width,
+        pts,
+        k,
+    }
+}
+
+fn check_knn(c: &KnnCase) -> Result<(), String> {
+    let (anchor, width, mcw, k) = (c.anchor, c.width, c.max_cell_width, c.k);
+    let pts = c.pts.clone();
+    let r = std::panic::catch_unwind(move || lib::space_knn(anchor, width, mcw, &pts, k));
+    let nn = match r {
+        Ok(x) => x,
+        Err(_) => return Err("knn panicked".into()),
+    };
+    let n = c.pts.len();
+    if nn.len() != n {
+        return Err(format!("knn returned {} lists for {} particles", nn.len(), n));
+    }
+    for i in 0..n {
+        if nn[i].len() != k {
+            return Err(format!("particle {}: {} neighbours instead of {}", i, nn[i].len(), k));
+        }
+        let mut d2: Vec<f64> = (0..n).filter(|&j| j != i).map(|j| c.pts[i].distance_squared(c.pts[j])).collect();
+        d2.sort_by(|a, b| a.partial_cmp(b).unwrap());
+        let mut used = BTreeSet::new();
+        for (rank, &j) in nn[i].iter().enumerate() {
+            if j == i || j >= n || !used.insert(j) {
+                return Err(format!("particle {}: neighbour list contains itself, a duplicate or an invalid index", i));
+            }
+            let got = c.pts[i].distance_squared(c.pts[j]);
+            if got != d2[rank] {
+                return Err(format!(
+                    "particle {}: rank {} has squared distance {:e}, the true {}-th nearest is at {:e}",
+                    i, rank, got, rank, d2[rank]
+                ));
+            }
+        }
+    }
+    Ok(())
+}
+
+fn knn_json(c: &KnnCase) -> J {
+    let v = |p: DVec3| J::arr([p.x, p.y, p.z].iter().map(|x| J::s(&format!("{:016x}", x.to_bits()))));
+    J::obj()
+        .set("anchor_bits", v(c.anchor))
+        .set("width_bits", v(c.width))
+        .set("width", J::arr([c.width.x, c.width.y, c.width.z].iter().map(|x| J::Num(*x))))
+        .set("max_cell_width_bits", J::s(&format!("{:016x}", c.max_cell_width.to_bits())))
+        .set("max_cell_width", J::Num(c.max_cell_width))
+        .set("k", J::u(c.k as u64))
+        .set("points", pts_json(&c.pts))
+}
+
+fn knn_from(j: &J) -> Result<KnnCase, String> {
+    let v = |j: &J| -> Result<DVec3, String> {
+        let a = j.as_arr().ok_or("bad vec")?;
+        let f = |i: usize| -> Result<f64, String> {
+            Ok(f64::from_bits(
+                u64::from_str_radix(a[i].as_str().ok_or("bad hex")?, 16).map_err(|e| e.to_string())?,
+            ))
+        };
+        Ok(DVec3::new(f(0)?, f(1)?, f(2)?))
+    };
+    Ok(KnnCase {
+        anchor: v(j.get("anchor_bits").ok_or("anchor")?)?,
+        width: v(j.get("width_bits").ok_or("width")?)?,
+        max_cell_width: f64::from_bits(
+            u64::from_str_radix(j.get("max_cell_width_bits").and_then(|s| s.as_str()).ok_or("mcw")?, 16)
+                .map_err(|e| e.to_string())?,
+        ),
+        k: j.get("k").and_then(|k| k.as_u64()).ok_or("k")? as usize,
+        pts: pts_from(j.get("points").ok_or("points")?)?,
+    })
+}
+
+// ---------------------------------------------------------------------------
+// Commands
+// ---------------------------------------------------------------------------
+
+/// Shrink a failing point set: drop points while some order still fails.
+fn minimise_points(pts: &[DVec3]) -> (Vec<DVec3>, u64, String) {
+    let fails = |p: &[DVec3]| -> Option<(u64, String)> {
+        if p.len() < 2 {
+            return None;
+        }
+        let (m, _) = epos6_under(p, 0);
+        for perm in 0..factorial(m) {
+            if let (_, Err(e)) = epos6_under(p, perm) {
+                return Some((perm, e));
+            }
+        }
+        None
+    };
+    let mut cur = pts.to_vec();
+    let mut last = fails(&cur).unwrap_or((0, String::new()));
+    let mut chunk = (cur.len() / 2).max(1);
+    loop {
+        let mut i = 0;
+        let mut progressed = false;
+        while i < cur.len() && cur.len() > 2 {
+            let end = (i + chunk).min(cur.len());
+            let mut cand = cur.clone();
+            cand.drain(i..end);
+            if let Some(f) = fails(&cand) {
+                cur = cand;
+                last = f;
+                progressed = true;
+            } else {
+                i += chunk;
+            }
+        }
+        if chunk == 1 && !progressed {
+            break;
+        }
+        if chunk > 1 {
+            chunk /= 2;
+        }
+    }
+    (cur, last.0, last.1)
+}
+
+struct SlowGuard(u64, Instant);
+impl Drop for SlowGuard {
+    fn drop(&mut self) {
+        if std::env::var("VERIF_VERBOSE").is_ok() && self.1.elapsed().as_secs_f64() > 0.5 {
+            eprintln!("slow case {} took {:.2}s", self.0, self.1.elapsed().as_secs_f64());
+        }
+    }
+}
+
+pub fn cmd_c20(args: &Args) -> i32 {
+    let seed = args.u64("seed", 1);
+    let start = args.u64("start", 0);
+    let count = args.u64("count", 1000);
+    let stride = args.u64("stride", 1).max(1);
+    let out = args.str("out", "/tmp/verif_out");
+    let shard = args.u64("shard", 0);
+    let replay_dir = args.str("replay-dir", "/verif/replays");
+    let time_limit = args.f64("time-limit", 1e9);
+    let max_n = args.u64("max-n", 300) as usize;
+    let skip_pure = args.flag("skip-pure");
+    let known: BTreeSet<String> = args.str("known", "").split(',').filter(|s| !s.is_empty()).map(|s| s.to_string()).collect();
+    lib::set_hash_order(Some(seam));
+    let t0 = Instant::now();
+
+    let mut sets = 0u64;
+    let mut orders = 0u64;
+    let mut nontrivial = 0u64;
+    let mut m_hist: BTreeMap<usize, u64> = BTreeMap::new();
+    let mut fam_hist: BTreeMap<String, u64> = BTreeMap::new();
+    let mut order_sensitive_sets = 0u64; // sets whose resulting sphere differs between orders
+    let mut pure: BTreeMap<String, u64> = BTreeMap::new();
+    let mut samples: Vec<J> = vec![];
+    let mut violations: Vec<J> = vec![];
+    let mut known_hits: BTreeMap<String, u64> = BTreeMap::new();
+    let mut code = 0;
+
+    let mut report = |clause: &str, idx: u64, desc: &str, payload: J, violations: &mut Vec<J>, known_hits: &mut BTreeMap<String, u64>| -> bool {
+        if known.contains(clause) {
+            let fam = payload.get("family").and_then(|f| f.as_str()).unwrap_or("");
+            *known_hits.entry(format!("{}{}{}", clause, if fam.is_empty() { "" } else { ":" }, fam)).or_insert(0) += 1;
+            return false;
+        }
+        let j = payload
+            .set("property", J::s("C20"))
+            .set("engine", J::s("C20:hash-order-seam+oracles"))
+            .set("clause", J::s(clause))
+            .set("verif_seed", J::s(&seed.to_string()))
+            .set("case_index", J::u(idx))
+            .set("what", J::s(desc));
+        let path = crate::write_replay(&replay_dir, &format!("C20-{}-{}-{}.json", clause, seed, idx), &j);
+        println!("C20-VIOLATION property=C20 clause={} case={} what={} replay={}", clause, idx, desc, path);
+        violations.push(J::obj().set("clause", J::s(clause)).set("case_index", J::u(idx)).set("what", J::s(desc)).set("replay", J::s(&path)));
+        true
+    };
+
+    for kk in 0..count {
+        if t0.elapsed().as_secs_f64() > time_limit {
+            break;
+        }
+        let idx = start + kk * stride;
+        let tc = Instant::now();
+        let _guard = SlowGuard(idx, tc);
+        let mut rng = Rng::new(mix(seed, idx, 0xC20));
+        // ---- simulated clause: Epos6 under every hash order ------------------
+        let (fam, pts) = gen_points(&mut rng, max_n);
+        sets += 1;
+        *fam_hist.entry(fam.clone()).or_insert(0) += 1;
+        let (m, _) = epos6_under(&pts, 0);
+        *m_hist.entry(m).or_insert(0) += 1;
+        let nperm = factorial(m);
+        let mut first_bad: Option<(u64, String)> = None;
+        let mut results = BTreeSet::new();
+        for perm in 0..nperm {
+            set_order(perm);
+            let r = std::panic::catch_unwind(|| lib::epos6_points(&pts));
+            orders += 1;
+            if m >= 3 {
+                nontrivial += 1;
+            }
+            match r {
+                Err(_) => {
+                    first_bad.get_or_insert((perm, "panicked".into()));
+                }
+                Ok((c, rad)) => {
+                    results.insert([c.x.to_bits(), c.y.to_bits(), c.z.to_bits(), rad.to_bits()]);
+                    if let Err(e) = contains_all(c, rad, &pts) {
+                        first_bad.get_or_insert((perm, e));
+                    }
+                }
+            }
+        }
+        if results.len() > 1 {
+            order_sensitive_sets += 1;
+        }
+        if samples.len() < 2 {
+            set_order(nperm - 1);
+            let _ = lib::epos6_points(&pts);
+            let (_, ord) = seen();
+            samples.push(
+                J::obj()
+                    .set("case_index", J::u(idx))
+                    .set("family", J::s(&fam))
+                    .set("n_points", J::u(pts.len() as u64))
+                    .set("extremal_set_size", J::u(m as u64))
+                    .set("orders_run", J::u(nperm))
+                    .set("distinct_result_spheres", J::u(results.len() as u64))
+                    .set("last_order_fed_to_welzl", J::arr(ord.iter().map(|i| J::u(*i as u64)))),
+            );
+        }
+        if let Some((perm, e)) = first_bad {
+            let (mp, mperm, me) = minimise_points(&pts);
+            let (use_pts, use_perm, use_e) = if mp.len() >= 2 && !me.is_empty() { (mp, mperm, me) } else { (pts.clone(), perm, e.clone()) };
+            set_order(use_perm);
+            let _ = std::panic::catch_unwind(|| lib::epos6_points(&use_pts));
+            let (_, ord) = seen();
+            let payload = J::obj()
+                .set("points", pts_json(&use_pts))
+                .set("order_index", J::u(use_perm))
+                .set("order", J::arr(ord.iter().map(|i| J::u(*i as u64))))
+                .set("family", J::s(&fam))
+                .set("original_points", J::u(pts.len() as u64))
+                .set("original_order_index", J::u(perm));
+            if report("epos6_order", idx, &use_e.replace(' ', "_"), payload, &mut violations, &mut known_hits) {
+                code = 1;
+                break;
+            }
+        }
+
+        if skip_pure {
+            continue;
+        }
+        // ---- pure clauses: exercised, not simulated ---------------------------
+        // Welzl containment on the same set (capped: the recursion is exponential-ish
+        // in the worst case but linear in practice), minimality on a small generic subset
+        let wpts: Vec<DVec3> = pts.iter().copied().take(14).collect();
+        *pure.entry("welzl_containment".into()).or_insert(0) += 1;
+        if let Err(e) = check_welzl(&wpts, false) {
+            let payload = J::obj().set("points", pts_json(&wpts)).set("minimal", J::Bool(false));
+            if report("welzl", idx, &e.replace(' ', "_"), payload, &mut violations, &mut known_hits) {
+                code = 1;
+                break;
+            }
+        }
+        {
+            let nsmall = 2 + rng.below(7) as usize;
+            let small: Vec<DVec3> = (0..nsmall).map(|_| DVec3::new(rng.sym(), rng.sym(), rng.sym())).collect();
+            *pure.entry("welzl_minimality".into()).or_insert(0) += 1;
+            if let Err(e) = check_welzl(&small, true) {
+                let payload = J::obj().set("points", pts_json(&small)).set("minimal", J::Bool(true));
+                if report("welzl", idx, &e.replace(' ', "_"), payload, &mut violations, &mut known_hits) {
+                    code = 1;
+                    break;
+                }
+            }
+        }
+        // sphere of spheres
+        {
+            let ns = 1 + rng.below(30) as usize;
+            let sph: Vec<(DVec3, f64)> = (0..ns)
+                .map(|_| (DVec3::new(rng.sym() * 4.0, rng.sym() * 4.0, rng.sym() * 4.0), 0.01 + rng.f64()))
+                .collect();
+            *pure.entry("sphere_of_spheres".into()).or_insert(0) += 1;
+            if let Err(e) = check_spheres(&sph) {
+                let payload = J::obj().set(
+                    "spheres",
+                    J::arr(sph.iter().map(|(c, r)| {
+                        J::arr([c.x, c.y, c.z, *r].iter().map(|x| J::s(&format!("{:016x}", x.to_bits()))))
+                    })),
+                );
+                if report("spheres", idx, &e.replace(' ', "_"), payload, &mut violations, &mut known_hits) {
+                    code = 1;
+                    break;
+                }
+            }
+        }
+        // k-NN: cubic and non-cubic boxes are separate clauses so that a known
+        // finding in one does not hide the other
+        for cubic in [true, false] {
+            let c = gen_knn(&mut rng, cubic, 120);
+            let is_cubic = c.width.x == c.width.y && c.width.y == c.width.z;
+            let clause = if is_cubic { "knn_cubic" } else { "knn_noncubic" };
+            *pure.entry(clause.into()).or_insert(0) += 1;
+            if let Err(e) = check_knn(&c) {
+                let payload = J::obj().set("knn", knn_json(&c));
+                if report(clause, idx, &e.replace(' ', "_"), payload, &mut violations, &mut known_hits) {
+                    code = 1;
+                    break;
+                }
+            }
+        }
+        if code != 0 {
+            break;
+        }
+    }
+
+    let j = J::obj()
+        .set("engine", J::s("C20"))
+        .set("shard", J::u(shard))
+        .set("seed", J::s(&seed.to_string()))
+        .set("point_sets", J::u(sets))
+        .set("orders_run", J::u(orders))
+        .set("nontrivial_orders", J::u(nontrivial))
+        .set("order_sensitive_sets", J::u(order_sensitive_sets))
+        .set("extremal_set_size_hist", J::Obj(m_hist.into_iter().map(|(k, v)| (k.to_string(), J::u(v))).collect()))
+        .set("families", J::Obj(fam_hist.into_iter().map(|(k, v)| (k, J::u(v))).collect()))
+        .set("exercised_not_simulated", J::Obj(pure.into_iter().map(|(k, v)| (k, J::u(v))).collect()))
+        .set("known_finding_hits", J::Obj(known_hits.into_iter().map(|(k, v)| (k, J::u(v))).collect()))
+        .set("samples", J::Arr(samples))
+        .set("violations", J::Arr(violations))
+        .set("wall_s", J::Num(t0.elapsed().as_secs_f64()));
+    let _ = std::fs::create_dir_all(&out);
+    let _ = std::fs::write(format!("{}/c20_shard_{}.json", out, shard), j.pretty());
+    code
+}
+
+pub fn replay(j: &J, path: &str, _args: &Args) -> i32 {
+    lib::set_hash_order(Some(seam));
+    let clause = j.get("clause").and_then(|c| c.as_str()).unwrap_or("");
+    let res: Result<(), String> = (|| match clause {
+        "epos6_order" => {
+            let pts = pts_from(j.get("points").ok_or("points missing")?)?;
+            let perm = j.get("order_index").and_then(|o| o.as_u64()).ok_or("order_index missing")?;
+            let (_, r) = epos6_under(&pts, perm);
+            let (_, ord) = seen();
+            println!("replayed Epos6 with order {:?}", ord);
+            r
+        }
+        "welzl" => {
+            let pts = pts_from(j.get("points").ok_or("points missing")?)?;
+            check_welzl(&pts, j.get("minimal").and_then(|m| m.as_bool()).unwrap_or(false))
+        }
+        "spheres" => {
+            let sph = j
+                .get("spheres")
+                .and_then(|s| s.as_arr())
+                .ok_or("spheres missing")?
+                .iter()
+                .map(|s| {
+                    let a = s.as_arr().ok_or("bad sphere")?;
+                    let f = |i: usize| -> Result<f64, String> {
+                        Ok(f64::from_bits(
+                            u64::from_str_radix(a[i].as_str().ok_or("bad hex")?, 16).map_err(|e| e.to_string())?,
+                        ))
+                    };
+                    Ok((DVec3::new(f(0)?, f(1)?, f(2)?), f(3)?))
+                })
+                .collect::<Result<Vec<_>, String>>()?;
+            check_spheres(&sph)
+        }
+        "knn_cubic" | "knn_noncubic" => check_knn(&knn_from(j.get("knn").ok_or("knn missing")?)?),
+        _ => Err(format!("HARNESS unknown clause {}", clause)),
+    })();
+    match res {
+        Ok(()) => {
+            println!("REPLAY-NO-VIOLATION property=C20 replay={}", path);
+            0
+        }
+        Err(e) if e.starts_with("HARNESS") || e.ends_with("missing") => {
+            eprintln!("replay: {}", e);
+            2
+        }
+        Err(e) => {
+            println!("replayed: {}", e);
+            println!("VIOLATION property=C20 replay={}", path);
+            1
+        }
+    }
 }
